@@ -342,6 +342,9 @@ func (g *hgen) emit(op Op, setup bool) {
 		g.tr.Tasks[0] = append(g.tr.Tasks[0], op)
 	}
 	var alts []Alt
+	if op.Obj < 0 {
+		return
+	}
 	if g.m.S[op.Obj] != nil {
 		alts = g.m.applyStack(op, "self", genElem(g.tr.Objs))
 	} else if g.m.C[op.Obj] != nil {
